@@ -20,6 +20,7 @@ import PCV.Model.DrvUtil
 import PCV.Model.LinCode
 import PCV.Model.CalcT
 import PCV.Model.LinCodeTranscript
+import PCV.Model.LinCodeSetup
 namespace PCV
 namespace DrvLinCode
 open Driver LinCode Merkle
@@ -273,6 +274,25 @@ def chunksBy {α : Type} : List Nat → List α → List (List α)
   | [], _ => []
   | k :: ks, l => l.take k :: chunksBy ks (l.drop k)
 
+/-- `lincode.setup scheme=0|1 s=<two-adicity> degree=`: the defaults `L::setup` installs (Ligero: 0;
+Brakedown: 1 — only the degree report), the degree report, and the verdict of `LinearCodePCS::setup`
+followed by `trim` -/
+def handleSetup (r : Req) : R String := do
+  let scheme ← asNat (← need r "scheme")
+  let s ← asNat (← need r "s")
+  let degree ← asNat (← need r "degree")
+  let pp := ligeroSetup
+  let realMax := if scheme = 0 then ligeroMaxDegree s pp else brakedownMaxDegree
+  match pcsSetup realMax degree with
+  | .error e => pure (errReply e)
+  | .ok () =>
+    match pcsTrim realMax pp with
+    | .error e => pure (errReply e)
+    | .ok (ck, vk) =>
+      pure <| okReply [("max", .n realMax), ("sec", .n ck.secParam), ("rho", .n ck.rhoInv),
+        ("wf", vBool ck.checkWf), ("d0", .n vk.distance.1), ("d1", .n vk.distance.2),
+        ("same", vBool (ck == vk))]
+
 def handleTranscript (r : Req) : R String := do
   let side ← asNat (← need r "side")
   let kind ← asNat (← need r "kind")
@@ -333,6 +353,7 @@ def handleTranscript (r : Req) : R String := do
 /-- `none` = not an op of this module -/
 def handle (p : Nat) (r : Req) : Option (Except String String) :=
   if r.op == "lincode.transcript" then some (handleTranscript (p := p) r)
+  else if r.op == "lincode.setup" then some (handleSetup r)
   else if r.op.startsWith "lincode." then some (handleLC (p := p) r) else none
 
 end DrvLinCode
